@@ -1,64 +1,420 @@
-(* Password_proofs.v — proofs for property C20 (xls record level, ods event level). *)
+(* Password_proofs.v — proofs for property C20: xls (byte level: record framing + globals loop)
+   and ods (event level). *)
 From Calamine Require Import Prelude Password.
 Open Scope N_scope.
 
+(* ================================================================== xls: framing *)
+Lemma u16_lo_hi : forall n, u16 (lo n) (hi n) = n.
+Proof. intros n. unfold u16, lo, hi. lia. Qed.
+
+Lemma lenN_cons : forall (x : N) b, lenN (x :: b) = lenN b + 1.
+Proof. intros. unfold lenN. cbn [length]. lia. Qed.
+
+Lemma take_n_app : forall b rest, take_n (b ++ rest) (lenN b) = Some (b, rest).
+Proof.
+  induction b as [|x b IH]; intros rest.
+  - change (lenN (@nil N)) with 0. destruct rest; reflexivity.
+  - cbn [app take_n]. rewrite lenN_cons.
+    destruct (lenN b + 1 =? 0) eqn:E; [lia|].
+    replace (lenN b + 1 - 1) with (lenN b) by lia. rewrite IH. reflexivity.
+Qed.
+
+(* a stream position where a record other than CONTINUE begins *)
+Definition tail_ok (s : list N) : Prop :=
+  exists t b r, s = rec_bytes t b ++ r /\ t <> CONTINUE.
+
+Lemma tail_ok_cons : forall s, tail_ok s -> exists x s', s = x :: s'.
+Proof. intros s (t & b & r & -> & _). unfold rec_bytes. cbn [app]. eauto. Qed.
+
+Lemma starts_cont_tail : forall s, tail_ok s -> starts_cont s = false.
+Proof.
+  intros s (t & b & r & -> & Ht). unfold rec_bytes. cbn [app starts_cont].
+  destruct (b ++ r); [reflexivity|]. rewrite u16_lo_hi. apply N.eqb_neq. exact Ht.
+Qed.
+
+Lemma collect_cont_tail : forall s fuel acc, tail_ok s ->
+  collect_cont (S fuel) s acc = Ok (acc, s).
+Proof.
+  intros s fuel acc (t & b & r & -> & Ht). unfold rec_bytes. cbn [app collect_cont].
+  destruct (b ++ r); [reflexivity|]. rewrite u16_lo_hi.
+  destruct (t =? CONTINUE) eqn:E; [apply N.eqb_eq in E; contradiction|reflexivity].
+Qed.
+
+Definition conts_bytes (conts : list (list N)) : list N :=
+  concat (map (rec_bytes CONTINUE) conts).
+
+Lemma collect_cont_conts : forall conts s fuel acc, tail_ok s ->
+  (length conts < fuel)%nat ->
+  collect_cont fuel (conts_bytes conts ++ s) acc = Ok (acc ++ conts, s).
+Proof.
+  induction conts as [|c cs IH]; intros s fuel acc Hs Hf.
+  - destruct fuel as [|f]; [cbn in Hf; lia|]. unfold conts_bytes. cbn [map concat app].
+    rewrite app_nil_r. apply collect_cont_tail. exact Hs.
+  - destruct fuel as [|f]; [cbn in Hf; lia|].
+    unfold conts_bytes. cbn [map concat]. fold (conts_bytes cs). rewrite <- app_assoc.
+    unfold rec_bytes at 1. cbn [app].
+    destruct (c ++ conts_bytes cs ++ s) as [|y ys] eqn:E.
+    + apply app_eq_nil in E. destruct E as [_ E]. apply app_eq_nil in E. destruct E as [_ E].
+      destruct (tail_ok_cons _ Hs) as (x & s' & Hx). congruence.
+    + cbn [collect_cont]. rewrite u16_lo_hi, N.eqb_refl, u16_lo_hi, <- E, take_n_app.
+      rewrite IH; [|exact Hs|cbn [length] in Hf; lia].
+      rewrite <- app_assoc. reflexivity.
+Qed.
+
+Lemma conts_bytes_length : forall conts, (length conts <= length (conts_bytes conts))%nat.
+Proof.
+  induction conts as [|c cs IH]; [cbn; lia|].
+  unfold conts_bytes in *. cbn [map concat]. rewrite app_length. unfold rec_bytes at 1.
+  cbn [length]. lia.
+Qed.
+
+Lemma starts_cont_conts : forall c cs s, tail_ok s ->
+  starts_cont (conts_bytes (c :: cs) ++ s) = true.
+Proof.
+  intros c cs s Hs. unfold conts_bytes. cbn [map concat]. fold (conts_bytes cs).
+  rewrite <- app_assoc. unfold rec_bytes at 1. cbn [app].
+  destruct (c ++ conts_bytes cs ++ s) as [|y ys] eqn:E.
+  - apply app_eq_nil in E. destruct E as [_ E]. apply app_eq_nil in E. destruct E as [_ E].
+    destruct (tail_ok_cons _ Hs) as (x & s' & Hx). congruence.
+  - cbn [starts_cont]. rewrite u16_lo_hi. apply N.eqb_refl.
+Qed.
+
+(* RecordIter::next gives back exactly the logical record the writer laid out *)
+Lemma next_record_item : forall it s, tail_ok s ->
+  next_record (item_bytes it ++ s) = Some (Ok (item_rec it, s)).
+Proof.
+  intros it s Hs. unfold item_bytes. fold (conts_bytes (i_conts it)). rewrite <- app_assoc.
+  unfold rec_bytes at 1. cbn [app next_record]. rewrite !u16_lo_hi, take_n_app.
+  unfold item_rec. destruct (i_conts it) as [|c cs].
+  - unfold conts_bytes. cbn [map concat app]. rewrite (starts_cont_tail _ Hs). reflexivity.
+  - rewrite (starts_cont_conts c cs _ Hs).
+    rewrite collect_cont_conts; [reflexivity|exact Hs|].
+    rewrite app_length. pose proof (conts_bytes_length (c :: cs)).
+    destruct (tail_ok_cons _ Hs) as (x & s' & ->). cbn [length] in *. lia.
+Qed.
+
+Lemma tail_ok_item : forall it s, i_typ it <> CONTINUE -> tail_ok (item_bytes it ++ s).
+Proof.
+  intros it s H. unfold item_bytes. rewrite <- app_assoc.
+  exists (i_typ it), (i_body it), (concat (map (rec_bytes CONTINUE) (i_conts it)) ++ s).
+  split; [reflexivity|exact H].
+Qed.
+
+Lemma item_ok_typ : forall it, item_ok it = true -> i_typ it <> CONTINUE.
+Proof.
+  intros it H. unfold item_ok in H. apply andb_prop in H. destruct H as [H _].
+  apply andb_prop in H. destruct H as [H _]. apply andb_prop in H. destruct H as [_ H].
+  apply negb_true_iff in H. apply N.eqb_neq. exact H.
+Qed.
+
+(* whatever follows a record, RecordIter::next reports its type *)
+Lemma next_record_typ : forall t b s, exists o,
+  next_record (rec_bytes t b ++ s) = Some o /\
+  forall r rest, o = Ok (r, rest) -> f_typ r = t.
+Proof.
+  intros t b s. unfold rec_bytes. cbn [app next_record]. rewrite !u16_lo_hi, take_n_app.
+  destruct (starts_cont s).
+  - eexists. split; [reflexivity|]. intros r rest H.
+    destruct (collect_cont (length s) s []) as [[a b']| | |]; cbn [obind] in H;
+      inversion H; reflexivity.
+  - eexists. split; [reflexivity|]. intros r rest H. inversion H. reflexivity.
+Qed.
+
+(* the only error RecordIter produces is EoStream *)
+Lemma collect_cont_err : forall fuel s acc e, collect_cont fuel s acc = Err e -> e = E_OTHER.
+Proof.
+  induction fuel as [|f IH]; intros s acc e H; [discriminate|].
+  cbn [collect_cont] in H.
+  destruct s as [|c0 [|c1 [|l0 [|l1 [|x body]]]]]; try discriminate.
+  destruct (u16 c0 c1 =? CONTINUE); [|discriminate].
+  destruct (take_n (x :: body) (u16 l0 l1)) as [[d r']|].
+  - apply (IH _ _ _ H).
+  - inversion H. reflexivity.
+Qed.
+
+Lemma next_record_err : forall s e, next_record s = Some (Err e) -> e = E_OTHER.
+Proof.
+  intros s e H. unfold next_record in H.
+  destruct s as [|t0 [|t1 [|l0 [|l1 body]]]]; try discriminate; try (inversion H; reflexivity).
+  destruct (take_n body (u16 l0 l1)) as [[d next]|]; [|inversion H; reflexivity].
+  destruct (starts_cont next); [|discriminate].
+  inversion H as [Hc].
+  destruct (collect_cont (length next) next []) as [[a b]|e'| |] eqn:Ec; cbn [obind] in Hc;
+    try discriminate.
+  inversion Hc. subst. apply (collect_cont_err _ _ _ _ Ec).
+Qed.
+
+(* plain records after it: the CONTINUE collection never fails *)
+Lemma raw_bytes_cons : forall t b rs, raw_bytes ((t, b) :: rs) = rec_bytes t b ++ raw_bytes rs.
+Proof. reflexivity. Qed.
+
+Lemma collect_cont_raw : forall rs fuel acc, (length rs < fuel)%nat ->
+  exists acc' rest, collect_cont fuel (raw_bytes rs) acc = Ok (acc', rest).
+Proof.
+  induction rs as [|[t b] rs IH]; intros fuel acc Hf; (destruct fuel as [|f]; [cbn in Hf; lia|]).
+  - eexists; eexists; reflexivity.
+  - rewrite raw_bytes_cons. unfold rec_bytes. cbn [app].
+    destruct (b ++ raw_bytes rs) as [|y ys] eqn:E.
+    + eexists; eexists; reflexivity.
+    + cbn [collect_cont]. destruct (u16 (lo t) (hi t) =? CONTINUE).
+      * rewrite u16_lo_hi, <- E, take_n_app. apply IH. cbn [length] in Hf. lia.
+      * eexists; eexists; reflexivity.
+Qed.
+
+Lemma raw_bytes_length : forall rs, (length rs <= length (raw_bytes rs))%nat.
+Proof.
+  induction rs as [|[t b] rs IH]; [cbn; lia|].
+  rewrite raw_bytes_cons, app_length. unfold rec_bytes. cbn [length]. lia.
+Qed.
+
+Lemma next_record_then_raw : forall t b post, exists r rest,
+  next_record (rec_bytes t b ++ raw_bytes post) = Some (Ok (r, rest)) /\ f_typ r = t.
+Proof.
+  intros t b post. unfold rec_bytes. cbn [app next_record]. rewrite !u16_lo_hi, take_n_app.
+  destruct (starts_cont (raw_bytes post)) eqn:Es.
+  - destruct post as [|[t' b'] post].
+    + cbn in Es. discriminate.
+    + destruct (@collect_cont_raw ((t', b') :: post) (length (raw_bytes ((t', b') :: post))) [])
+        as (acc' & rest & Hc).
+      { pose proof (raw_bytes_length post). rewrite raw_bytes_cons, app_length.
+        unfold rec_bytes. cbn [length]. lia. }
+      rewrite Hc. cbn [obind fst snd]. eexists; eexists. split; reflexivity.
+  - eexists; eexists. split; reflexivity.
+Qed.
+
+(* ================================================================== xls: the globals loop *)
+Definition items_bytes (its : list item) : list N := concat (map item_bytes its).
+
 Section XlsGlobals.
-Variable interp : N -> list N -> option N.
+Variable interp : frec -> outcome unit.
 
-(* every record before the FILEPASS record is passed over: the scan answers Password *)
-Theorem filepass_is_password : forall (pre : list (N * list N)) body rest,
-  (forall t b, In (t, b) pre -> t <> FILEPASS /\ t <> EOF_REC /\ interp t b = None) ->
-  globals_scan interp (pre ++ (FILEPASS, body) :: rest) = SPassword.
+(* the records in front are passed over *)
+Lemma globals_loop_pre : forall pre s fuel,
+  forallb item_ok pre = true ->
+  (forall it, In it pre ->
+     i_typ it <> FILEPASS /\ i_typ it <> EOF_REC /\ interp (item_rec it) = Ok tt) ->
+  tail_ok s ->
+  globals_loop interp (length pre + fuel) (items_bytes pre ++ s) = globals_loop interp fuel s.
 Proof.
-  induction pre as [|[t b] pre IH]; intros body rest H; cbn [app globals_scan].
-  - rewrite N.eqb_refl. reflexivity.
-  - destruct (H t b (or_introl eq_refl)) as [H1 [H2 H3]].
-    destruct (t =? FILEPASS) eqn:E1; [apply N.eqb_eq in E1; contradiction|].
-    destruct (t =? EOF_REC) eqn:E2; [apply N.eqb_eq in E2; contradiction|].
-    rewrite H3. apply IH. intros t' b' Hin. apply H. right; exact Hin.
-Qed.
-
-(* conversely, a globals stream without a FILEPASS record is never reported as protected *)
-Theorem no_filepass_no_password : forall recs : list (N * list N),
-  (forall t b, In (t, b) recs -> t <> FILEPASS) ->
-  globals_scan interp recs <> SPassword.
-Proof.
-  induction recs as [|[t b] recs IH]; intros H; cbn [globals_scan]; [discriminate|].
-  destruct (t =? FILEPASS) eqn:E1.
-  - apply N.eqb_eq in E1. exfalso. exact (H t b (or_introl eq_refl) E1).
-  - destruct (t =? EOF_REC); [discriminate|].
-    destruct (interp t b); [discriminate|]. apply IH. intros t' b' Hin. apply (H t' b'). right; exact Hin.
-Qed.
-
-(* records after the EOF record are not examined (a FILEPASS there is not in a legal position) *)
-Theorem scan_stops_at_eof : forall (pre : list (N * list N)) body rest,
-  (forall t b, In (t, b) pre -> t <> FILEPASS /\ t <> EOF_REC /\ interp t b = None) ->
-  globals_scan interp (pre ++ (EOF_REC, body) :: rest) = SDone.
-Proof.
-  induction pre as [|[t b] pre IH]; intros body rest H; cbn [app globals_scan].
+  induction pre as [|it pre IH]; intros s fuel Hok Hpre Hs.
   - reflexivity.
-  - destruct (H t b (or_introl eq_refl)) as [H1 [H2 H3]].
-    destruct (t =? FILEPASS) eqn:E1; [apply N.eqb_eq in E1; contradiction|].
-    destruct (t =? EOF_REC) eqn:E2; [apply N.eqb_eq in E2; contradiction|].
-    rewrite H3. apply IH. intros t' b' Hin. apply H. right; exact Hin.
+  - cbn [forallb] in Hok. apply andb_prop in Hok. destruct Hok as [Hit Hok].
+    destruct (Hpre it (or_introl eq_refl)) as (H1 & H2 & H3).
+    unfold items_bytes. cbn [map concat length plus]. fold (items_bytes pre).
+    rewrite <- app_assoc. cbn [globals_loop].
+    assert (Ht : tail_ok (items_bytes pre ++ s)).
+    { destruct pre as [|it2 pre2]; [exact Hs|].
+      unfold items_bytes. cbn [map concat]. rewrite <- app_assoc. apply tail_ok_item.
+      cbn [forallb] in Hok. apply andb_prop in Hok. apply item_ok_typ. apply Hok. }
+    rewrite (next_record_item it _ Ht). cbn [obind fst snd].
+    change (f_typ (item_rec it)) with (i_typ it).
+    destruct (i_typ it =? FILEPASS) eqn:E1; [apply N.eqb_eq in E1; contradiction|].
+    destruct (i_typ it =? EOF_REC) eqn:E2; [apply N.eqb_eq in E2; contradiction|].
+    rewrite H3. cbn [obind].
+    apply IH; [exact Hok| |exact Hs]. intros it' Hin. apply Hpre. right. exact Hin.
+Qed.
+
+Lemma items_bytes_length : forall its, (length its <= length (items_bytes its))%nat.
+Proof.
+  induction its as [|it its IH]; [cbn; lia|].
+  unfold items_bytes in *. cbn [map concat]. rewrite app_length. unfold item_bytes at 1.
+  rewrite app_length. unfold rec_bytes at 1. cbn [length]. lia.
+Qed.
+
+(* MAIN (xls, positive): a FILEPASS record of any body — any encryption type, any header —
+   after any records the loop passes over, followed by any well-framed records with any bodies
+   (the ciphertext), makes the loop return Password *)
+Theorem filepass_is_password : forall pre body post,
+  forallb item_ok pre = true ->
+  (forall it, In it pre ->
+     i_typ it <> FILEPASS /\ i_typ it <> EOF_REC /\ interp (item_rec it) = Ok tt) ->
+  body_ok body = true -> forallb raw_ok post = true ->
+  xls_globals interp (items_bytes pre ++ rec_bytes FILEPASS body ++ raw_bytes post)
+  = Err E_PASSWORD.
+Proof.
+  intros pre body post Hok Hpre _ _. unfold xls_globals.
+  set (s := rec_bytes FILEPASS body ++ raw_bytes post).
+  assert (Hs : tail_ok s).
+  { exists FILEPASS, body, (raw_bytes post). split; [reflexivity|discriminate]. }
+  pose proof (items_bytes_length pre) as Hl.
+  replace (S (length (items_bytes pre ++ s)))
+    with (length pre + S (length (items_bytes pre ++ s) - length pre))%nat
+    by (rewrite app_length; lia).
+  rewrite (globals_loop_pre pre s _ Hok Hpre Hs).
+  cbn [globals_loop]. subst s.
+  destruct (next_record_then_raw FILEPASS body post) as (r & rest & Hn & Ht).
+  rewrite Hn. cbn [obind fst]. rewrite Ht. reflexivity.
+Qed.
+
+(* the same through Xls::new: no VBA storage (or one that loads), the stream found under either
+   name *)
+Corollary xls_new_filepass_workbook : forall vba book pre body post,
+  forallb item_ok pre = true ->
+  (forall it, In it pre ->
+     i_typ it <> FILEPASS /\ i_typ it <> EOF_REC /\ interp (item_rec it) = Ok tt) ->
+  body_ok body = true -> forallb raw_ok post = true ->
+  xls_new interp false vba
+          (Ok (items_bytes pre ++ rec_bytes FILEPASS body ++ raw_bytes post)) book
+  = Err E_PASSWORD.
+Proof. intros. unfold xls_new. cbn [obind or_else]. apply filepass_is_password; assumption. Qed.
+
+Corollary xls_new_filepass_book : forall vba e pre body post,
+  forallb item_ok pre = true ->
+  (forall it, In it pre ->
+     i_typ it <> FILEPASS /\ i_typ it <> EOF_REC /\ interp (item_rec it) = Ok tt) ->
+  body_ok body = true -> forallb raw_ok post = true ->
+  xls_new interp false vba (Err e)
+          (Ok (items_bytes pre ++ rec_bytes FILEPASS body ++ raw_bytes post))
+  = Err E_PASSWORD.
+Proof. intros. unfold xls_new. cbn [obind or_else]. apply filepass_is_password; assumption. Qed.
+
+(* a FILEPASS record behind the EOF record of the globals is not in a legal position: the loop
+   has already ended *)
+Theorem scan_stops_at_eof : forall pre body post,
+  forallb item_ok pre = true ->
+  (forall it, In it pre ->
+     i_typ it <> FILEPASS /\ i_typ it <> EOF_REC /\ interp (item_rec it) = Ok tt) ->
+  xls_globals interp (items_bytes pre ++ rec_bytes EOF_REC body ++ raw_bytes post) = Ok tt.
+Proof.
+  intros pre body post Hok Hpre. unfold xls_globals.
+  set (s := rec_bytes EOF_REC body ++ raw_bytes post).
+  assert (Hs : tail_ok s).
+  { exists EOF_REC, body, (raw_bytes post). split; [reflexivity|discriminate]. }
+  pose proof (items_bytes_length pre) as Hl.
+  replace (S (length (items_bytes pre ++ s)))
+    with (length pre + S (length (items_bytes pre ++ s) - length pre))%nat
+    by (rewrite app_length; lia).
+  rewrite (globals_loop_pre pre s _ Hok Hpre Hs).
+  cbn [globals_loop]. subst s.
+  destruct (next_record_then_raw EOF_REC body post) as (r & rest & Hn & Ht).
+  rewrite Hn. cbn [obind fst]. rewrite Ht. reflexivity.
+Qed.
+
+(* ---- converse ---- *)
+Hypothesis interp_never_password : forall r, interp r <> Err E_PASSWORD.
+
+(* Password can only come from a record that RecordIter reports with type 0x002F *)
+Lemma password_only_from_filepass : forall fuel s,
+  globals_loop interp fuel s = Err E_PASSWORD ->
+  exists s' r rest, next_record s' = Some (Ok (r, rest)) /\ f_typ r = FILEPASS.
+Proof.
+  induction fuel as [|f IH]; intros s H; [discriminate|].
+  cbn [globals_loop] in H. destruct (next_record s) as [o|] eqn:En; [|discriminate].
+  destruct o as [[r rest]|e| |]; cbn [obind fst snd] in H; try discriminate.
+  - destruct (f_typ r =? FILEPASS) eqn:E1.
+    + apply N.eqb_eq in E1. exists s, r, rest. split; assumption.
+    + destruct (f_typ r =? EOF_REC); [discriminate|].
+      destruct (interp r) as [[]|e| |] eqn:Ei; cbn [obind] in H; try discriminate.
+      * apply (IH rest). exact H.
+      * exfalso. apply (interp_never_password r). rewrite Ei. exact H.
+  - rewrite (next_record_err _ _ En) in H. discriminate.
+Qed.
+
+(* MAIN (xls, converse): a globals substream made of records none of which is FILEPASS, closed
+   by its EOF record, followed by anything (the sheet substreams), never yields Password —
+   whatever the records do to the loop otherwise *)
+Theorem no_filepass_no_password : forall items eofbody rest fuel,
+  forallb item_ok items = true ->
+  (forall it, In it items -> i_typ it <> FILEPASS) ->
+  globals_loop interp fuel (items_bytes items ++ rec_bytes EOF_REC eofbody ++ rest)
+  <> Err E_PASSWORD.
+Proof.
+  induction items as [|it items IH]; intros eofbody rest fuel Hok Hno.
+  - unfold items_bytes. cbn [map concat app]. destruct fuel as [|f]; [discriminate|].
+    cbn [globals_loop].
+    destruct (next_record_typ EOF_REC eofbody rest) as (o & Hn & Ht). rewrite Hn.
+    destruct o as [[r rest']|e| |]; cbn [obind fst snd]; try discriminate.
+    + rewrite (Ht r rest' eq_refl). change (EOF_REC =? FILEPASS) with false.
+      rewrite N.eqb_refl. discriminate.
+    + rewrite (next_record_err _ _ Hn). discriminate.
+  - cbn [forallb] in Hok. apply andb_prop in Hok. destruct Hok as [Hit Hok].
+    unfold items_bytes. cbn [map concat]. fold (items_bytes items). rewrite <- app_assoc.
+    destruct fuel as [|f]; [discriminate|]. cbn [globals_loop].
+    assert (Ht : tail_ok (items_bytes items ++ rec_bytes EOF_REC eofbody ++ rest)).
+    { destruct items as [|it2 items2].
+      - exists EOF_REC, eofbody, rest. split; [reflexivity|discriminate].
+      - unfold items_bytes. cbn [map concat]. rewrite <- app_assoc. apply tail_ok_item.
+        cbn [forallb] in Hok. apply andb_prop in Hok. apply item_ok_typ. apply Hok. }
+    rewrite (next_record_item it _ Ht). cbn [obind fst snd].
+    change (f_typ (item_rec it)) with (i_typ it).
+    destruct (i_typ it =? FILEPASS) eqn:E1.
+    { apply N.eqb_eq in E1. exfalso. exact (Hno it (or_introl eq_refl) E1). }
+    destruct (i_typ it =? EOF_REC); [discriminate|].
+    destruct (interp (item_rec it)) as [[]|e| |] eqn:Ei; cbn [obind]; try discriminate.
+    + apply IH; [exact Hok|]. intros it' Hin. apply Hno. right. exact Hin.
+    + intros H. apply (interp_never_password (item_rec it)). rewrite Ei. exact H.
 Qed.
 End XlsGlobals.
 
-(* ------------------------------------------------------------------ ods manifest *)
+(* the executable instance never produces Password by itself *)
+Lemma interp_real_never_password : forall r, interp_real r <> Err E_PASSWORD.
+Proof.
+  intros r. unfold interp_real.
+  destruct (f_typ r =? 66).
+  { destruct (f_data r) as [|a [|b l]]; try discriminate. destruct (existsb _ _); discriminate. }
+  destruct (f_typ r =? 34). { destruct (f_data r) as [|a [|b l]]; discriminate. }
+  destruct (f_typ r =? 2057). { destruct (f_data r) as [|a [|b l]]; discriminate. }
+  destruct (f_typ r =? 224). { destruct (f_data r) as [|a [|b [|c [|d l]]]]; discriminate. }
+  destruct (unmodelled_typ (f_typ r)); discriminate.
+Qed.
+
+Corollary no_filepass_no_password_real : forall items eofbody rest,
+  forallb item_ok items = true ->
+  (forall it, In it items -> i_typ it <> FILEPASS) ->
+  xls_globals interp_real (items_bytes items ++ rec_bytes EOF_REC eofbody ++ rest)
+  <> Err E_PASSWORD.
+Proof.
+  intros. unfold xls_globals.
+  apply no_filepass_no_password; [exact interp_real_never_password|assumption|assumption].
+Qed.
+
+(* ================================================================== ods manifest *)
 Lemma str_eqb_refl : forall a, str_eqb a a = true.
 Proof.
   intros a. unfold str_eqb. rewrite Nat.eqb_refl. cbn [andb].
   induction a as [|x a IH]; cbn; [reflexivity|]. rewrite N.eqb_refl. exact IH.
 Qed.
 
-Lemma inner_scan_app : forall a b, inner_scan (a ++ b) = inner_scan a || inner_scan b.
+Lemma after_colon_free : forall l, colon_free l = true -> after_colon l = None.
+Proof.
+  induction l as [|c l IH]; intros H; [reflexivity|].
+  cbn [colon_free forallb] in H. apply andb_prop in H. destruct H as [Hc Hl].
+  cbn [after_colon]. apply negb_true_iff in Hc. rewrite Hc. apply IH. exact Hl.
+Qed.
+
+Lemma after_colon_prefix : forall p l, colon_free p = true ->
+  after_colon (p ++ COLON :: l) = Some l.
+Proof.
+  induction p as [|c p IH]; intros l H.
+  - cbn [app after_colon]. rewrite N.eqb_refl. reflexivity.
+  - cbn [colon_free forallb] in H. apply andb_prop in H. destruct H as [Hc Hp].
+    cbn [app after_colon]. apply negb_true_iff in Hc. rewrite Hc. apply IH. exact Hp.
+Qed.
+
+(* any prefix spelling — or none — leaves the local name *)
+Lemma local_name_qn : forall p l, prefix_ok p = true -> colon_free l = true ->
+  local_name (qn p l) = l.
+Proof.
+  intros [p|] l Hp Hl; unfold local_name, qn.
+  - rewrite after_colon_prefix; [reflexivity|exact Hp].
+  - rewrite after_colon_free; [reflexivity|exact Hl].
+Qed.
+
+Lemma FE_colon_free : colon_free FILE_ENTRY = true. Proof. reflexivity. Qed.
+Lemma ED_colon_free : colon_free ENCRYPTION_DATA = true. Proof. reflexivity. Qed.
+Lemma MF_colon_free : colon_free MANIFEST = true. Proof. reflexivity. Qed.
+
+Definition seq (o k : outcome unit) : outcome unit := match o with Ok _ => k | _ => o end.
+
+Lemma inner_scan_app : forall a b, inner_scan (a ++ b) = seq (inner_scan a) (inner_scan b).
 Proof.
   induction a as [|e a IH]; intros b; cbn [app inner_scan]; [reflexivity|].
-  destruct e as [n|n|]; try apply IH. destruct (str_eqb n ENCRYPTION_DATA); [reflexivity|apply IH].
+  destruct e as [q|q| |]; try apply IH; [|reflexivity].
+  destruct (str_eqb (local_name q) ENCRYPTION_DATA); [reflexivity|apply IH].
 Qed.
 
 Lemma inner_scan_neutral_elems : forall ns, forallb neutral_name ns = true ->
-  inner_scan (concat (map render_elem ns)) = false.
+  inner_scan (concat (map render_elem ns)) = Ok tt.
 Proof.
   induction ns as [|n ns IH]; cbn [map concat forallb]; [reflexivity|].
   intros H. apply andb_prop in H. destruct H as [Hn Hns].
@@ -67,90 +423,150 @@ Proof.
   apply negb_true_iff in Hn. rewrite Hn. apply IH. exact Hns.
 Qed.
 
-Lemma manifest_scan_neutral_elems : forall ns rest, forallb neutral_name ns = true ->
-  manifest_scan (concat (map render_elem ns) ++ rest) = manifest_scan rest.
-Proof.
-  induction ns as [|n ns IH]; intros rest H; cbn [map concat forallb app]; [reflexivity|].
-  apply andb_prop in H. destruct H as [Hn Hns].
-  unfold render_elem at 1. cbn [app manifest_scan].
-  unfold neutral_name in Hn. apply andb_prop in Hn. destruct Hn as [Hn _].
-  apply negb_true_iff in Hn. rewrite Hn. apply IH. exact Hns.
-Qed.
-
 Lemma FE_not_ED : str_eqb FILE_ENTRY ENCRYPTION_DATA = false.
 Proof. reflexivity. Qed.
-Lemma ED_not_FE : str_eqb ENCRYPTION_DATA FILE_ENTRY = false.
-Proof. reflexivity. Qed.
+
+Lemma entry_ok_parts : forall e, entry_ok e = true ->
+  prefix_ok (e_prefix e) = true /\ prefix_ok (e_enc_prefix e) = true /\
+  forallb neutral_name (e_children_before e) = true /\
+  forallb neutral_name (e_algo_children e) = true.
+Proof.
+  intros e H. unfold entry_ok in H. repeat (apply andb_prop in H; destruct H as [H ?]).
+  repeat split; assumption.
+Qed.
 
 (* one entry under the inner scan *)
-Lemma inner_scan_entry : forall e rest, neutral_entry e = true ->
-  inner_scan (render_entry e ++ rest) = e_encrypted e || inner_scan rest.
+Lemma inner_scan_entry : forall e rest, entry_ok e = true ->
+  inner_scan (render_entry e ++ rest) = if e_encrypted e then Err E_PASSWORD else inner_scan rest.
 Proof.
-  intros e rest He. unfold neutral_entry in He. apply andb_prop in He. destruct He as [Hb Ha].
-  unfold render_entry. rewrite <- !app_assoc. cbn [app inner_scan]. rewrite FE_not_ED.
-  rewrite inner_scan_app, (inner_scan_neutral_elems _ Hb). cbn [orb].
-  destruct (e_encrypted e); cbn [app inner_scan orb].
-  - rewrite str_eqb_refl. reflexivity.
+  intros e rest He. destruct (entry_ok_parts e He) as (Hp & Hq & Hb & Ha).
+  unfold render_entry. rewrite <- !app_assoc. cbn [app inner_scan].
+  rewrite (local_name_qn _ _ Hp FE_colon_free), FE_not_ED.
+  rewrite inner_scan_app, (inner_scan_neutral_elems _ Hb). cbn [seq].
+  destruct (e_encrypted e); cbn [app inner_scan].
+  - rewrite (local_name_qn _ _ Hq ED_colon_free), str_eqb_refl. reflexivity.
   - reflexivity.
 Qed.
 
-(* the inner scan over the rendering of entries finds exactly a declared encryption *)
-Lemma inner_scan_entries : forall es rest, forallb neutral_entry es = true ->
+Lemma inner_scan_entries : forall es rest, forallb entry_ok es = true ->
   inner_scan (concat (map (fun e => MOther :: render_entry e) es) ++ rest)
-  = existsb e_encrypted es || inner_scan rest.
+  = if existsb e_encrypted es then Err E_PASSWORD else inner_scan rest.
 Proof.
   induction es as [|e es IH]; intros rest H; cbn [map concat forallb existsb app]; [reflexivity|].
   apply andb_prop in H. destruct H as [He Hes].
   cbn [inner_scan]. rewrite <- app_assoc, (inner_scan_entry _ _ He), (IH _ Hes).
-  rewrite orb_assoc. reflexivity.
+  destruct (e_encrypted e); reflexivity.
 Qed.
 
 (* one entry under the outer scan: from its start tag on, the inner loop takes over *)
-Lemma manifest_scan_entry : forall e rest, neutral_entry e = true ->
-  manifest_scan (render_entry e ++ rest) = e_encrypted e || inner_scan rest.
+Lemma manifest_scan_entry : forall e rest, entry_ok e = true ->
+  manifest_scan (render_entry e ++ rest)
+  = if e_encrypted e then Err E_PASSWORD else inner_scan rest.
 Proof.
   intros e rest He. pose proof (inner_scan_entry e rest He) as Hi.
+  destruct (entry_ok_parts e He) as (Hp & _).
   unfold render_entry in *. rewrite <- !app_assoc in *. cbn [app manifest_scan inner_scan] in *.
-  rewrite str_eqb_refl. rewrite FE_not_ED in Hi. exact Hi.
+  rewrite (local_name_qn _ _ Hp FE_colon_free) in *. rewrite str_eqb_refl.
+  rewrite FE_not_ED in Hi. exact Hi.
 Qed.
 
-(* the outer scan: Password iff some entry declares encryption data *)
-Theorem manifest_scan_spec : forall es, forallb neutral_entry es = true ->
-  manifest_scan (render_manifest es) = declares_encryption es.
+(* MAIN (ods, structured): Password iff some entry declares encryption data, for any number of
+   entries, any prefix spelling on every element *)
+Theorem manifest_scan_spec : forall rp es,
+  prefix_ok rp = true -> forallb entry_ok es = true ->
+  manifest_scan (render_manifest rp es) = spec_ods es.
 Proof.
-  intros es H. unfold render_manifest, declares_encryption.
-  cbn [app manifest_scan]. change (str_eqb MANIFEST FILE_ENTRY) with false. cbn iota.
+  intros rp es Hrp H. unfold render_manifest, spec_ods, declares_encryption.
+  cbn [app manifest_scan]. rewrite (local_name_qn _ _ Hrp MF_colon_free).
+  change (str_eqb MANIFEST FILE_ENTRY) with false. cbn iota.
   destruct es as [|e es]; cbn [map concat forallb existsb app manifest_scan].
   - reflexivity.
   - apply andb_prop in H. destruct H as [He Hes].
     rewrite <- app_assoc, (manifest_scan_entry _ _ He), (inner_scan_entries es _ Hes).
-    cbn [inner_scan]. change (str_eqb MANIFEST ENCRYPTION_DATA) with false.
-    rewrite orb_false_r. reflexivity.
+    cbn [inner_scan]. destruct (e_encrypted e); reflexivity.
 Qed.
 
-Corollary ods_encryption_data_is_password : forall es,
-  forallb neutral_entry es = true -> declares_encryption es = true ->
-  manifest_scan (render_manifest es) = true.
-Proof. intros es H1 H2. rewrite manifest_scan_spec; assumption. Qed.
-
-Corollary ods_no_false_positive : forall es,
-  forallb neutral_entry es = true -> declares_encryption es = false ->
-  manifest_scan (render_manifest es) = false.
-Proof. intros es H1 H2. rewrite manifest_scan_spec; assumption. Qed.
-
-(* any event list without an encryption-data start is never reported, whatever else it holds *)
-Theorem no_encryption_data_no_password : forall evs,
-  (forall n, In (MStart n) evs -> str_eqb n ENCRYPTION_DATA = false) ->
-  manifest_scan evs = false.
+Corollary ods_new_spec : forall m rp es,
+  (46 <= length m)%nat -> firstn 46 m = MIMETYPE ->
+  prefix_ok rp = true -> forallb entry_ok es = true ->
+  ods_new (Some m) (Some (render_manifest rp es)) = spec_ods es.
 Proof.
-  assert (Hin : forall evs, (forall n, In (MStart n) evs -> str_eqb n ENCRYPTION_DATA = false) ->
-                            inner_scan evs = false).
-  { induction evs as [|e evs IH]; intros H; cbn [inner_scan]; [reflexivity|].
-    destruct e as [n|n|]; try (apply IH; intros m Hm; apply H; right; exact Hm).
-    rewrite (H n (or_introl eq_refl)). apply IH. intros m Hm. apply H. right; exact Hm. }
-  induction evs as [|e evs IH]; intros H; cbn [manifest_scan]; [reflexivity|].
-  destruct e as [n|n|]; try (apply IH; intros m Hm; apply H; right; exact Hm).
-  destruct (str_eqb n FILE_ENTRY).
+  intros m rp es Hl Hm Hrp H. unfold ods_new.
+  destruct (length m <? 46)%nat eqn:E; [apply Nat.ltb_lt in E; lia|].
+  rewrite Hm, str_eqb_refl. cbn [negb]. apply manifest_scan_spec; assumption.
+Qed.
+
+(* MAIN (ods, event level): an encryption-data start tag — under any prefix — anywhere after a
+   file-entry start tag — under any prefix —, among any other events the reader accepts, is
+   reported as Password *)
+Definition no_err (evs : list mevent) : Prop := ~ In MErr evs.
+
+Lemma inner_scan_finds : forall b q c, no_err b ->
+  str_eqb (local_name q) ENCRYPTION_DATA = true ->
+  inner_scan (b ++ MStart q :: c) = Err E_PASSWORD.
+Proof.
+  induction b as [|e b IH]; intros q c Hb Hq; cbn [app inner_scan].
+  - rewrite Hq. reflexivity.
+  - assert (Hb' : no_err b) by (intros Hin; apply Hb; right; exact Hin).
+    destruct e as [q'|q'| |].
+    + destruct (str_eqb (local_name q') ENCRYPTION_DATA); [reflexivity|]. apply IH; assumption.
+    + apply IH; assumption.
+    + apply IH; assumption.
+    + exfalso. apply Hb. left. reflexivity.
+Qed.
+
+Theorem encryption_data_is_password : forall a q1 b q2 c,
+  no_err a -> no_err b ->
+  str_eqb (local_name q1) FILE_ENTRY = true ->
+  str_eqb (local_name q2) ENCRYPTION_DATA = true ->
+  manifest_scan (a ++ MStart q1 :: b ++ MStart q2 :: c) = Err E_PASSWORD.
+Proof.
+  induction a as [|e a IH]; intros q1 b q2 c Ha Hb H1 H2; cbn [app manifest_scan].
+  - rewrite H1. apply inner_scan_finds; assumption.
+  - assert (Ha' : no_err a) by (intros Hin; apply Ha; right; exact Hin).
+    destruct e as [q'|q'| |].
+    + destruct (str_eqb (local_name q') FILE_ENTRY).
+      * replace (a ++ MStart q1 :: b ++ MStart q2 :: c)
+          with ((a ++ MStart q1 :: b) ++ MStart q2 :: c)
+          by (rewrite <- app_assoc; reflexivity).
+        apply inner_scan_finds; [|exact H2].
+        intros Hin. apply in_app_or in Hin. destruct Hin as [Hin|Hin]; [exact (Ha' Hin)|].
+        destruct Hin as [Hin|Hin]; [discriminate|exact (Hb Hin)].
+      * apply IH; assumption.
+    + apply IH; assumption.
+    + apply IH; assumption.
+    + exfalso. apply Ha. left. reflexivity.
+Qed.
+
+(* MAIN (ods, converse): an event list without an encryption-data start tag is never reported,
+   whatever else it holds *)
+Theorem no_encryption_data_no_password : forall evs,
+  (forall q, In (MStart q) evs -> str_eqb (local_name q) ENCRYPTION_DATA = false) ->
+  manifest_scan evs <> Err E_PASSWORD.
+Proof.
+  assert (Hin : forall evs,
+             (forall q, In (MStart q) evs -> str_eqb (local_name q) ENCRYPTION_DATA = false) ->
+             inner_scan evs <> Err E_PASSWORD).
+  { induction evs as [|e evs IH]; intros H; cbn [inner_scan]; [discriminate|].
+    destruct e as [q|q| |]; try (apply IH; intros m Hm; apply H; right; exact Hm);
+      [|discriminate].
+    rewrite (H q (or_introl eq_refl)). apply IH. intros m Hm. apply H. right; exact Hm. }
+  induction evs as [|e evs IH]; intros H; cbn [manifest_scan]; [discriminate|].
+  destruct e as [q|q| |]; try (apply IH; intros m Hm; apply H; right; exact Hm);
+    [|discriminate].
+  destruct (str_eqb (local_name q) FILE_ENTRY).
   - apply Hin. intros m Hm. apply H. right; exact Hm.
   - apply IH. intros m Hm. apply H. right; exact Hm.
+Qed.
+
+Corollary ods_new_no_false_positive : forall mt mf,
+  (forall evs, mf = Some evs ->
+     forall q, In (MStart q) evs -> str_eqb (local_name q) ENCRYPTION_DATA = false) ->
+  ods_new mt mf <> Err E_PASSWORD.
+Proof.
+  intros mt mf H. unfold ods_new. destruct mt as [m|]; [|discriminate].
+  destruct (length m <? 46)%nat; [discriminate|].
+  destruct (negb (str_eqb (firstn 46 m) MIMETYPE)); [discriminate|].
+  destruct mf as [evs|]; [|discriminate].
+  apply no_encryption_data_no_password. apply H. reflexivity.
 Qed.
